@@ -462,4 +462,31 @@ def additionalAnswer (resolve : Str → SubResult) (qname : Str) (qtype : Nat) (
     | Scan.target none => msg
     | Scan.target (some t) => chaseLoop resolve qname qtype 10 t msg
 
+/-! ### the level bookkeeping of the descent (`rs.level` vs `rs.servers.Zone`) -/
+
+/-- The writes to `rs.level` / `rs.servers` in resolver.go, as the go/ast fact
+`shape_level_is_zone_depth` pins them. -/
+inductive LevelStep
+  | seed (zoneDepth : Nat)        -- resolve(), isRoot: searchCache's deepest cached zone (or the root, 0)
+  | delegate (zoneDepth : Nat)    -- processDelegation: rs.level = nlevel = CountLabel(new zone)
+  | cachedHit (zoneDepth : Nat)   -- resolveWithCachedNameservers: rs.level = CountLabel(cached zone)
+  | minimiseUp                    -- a QNAME-minimisation step: rs.level++ at the same servers
+deriving Repr, DecidableEq
+
+structure Descent where
+  level : Nat := 0
+  zoneDepth : Nat := 0            -- label count of rs.servers.Zone
+deriving Repr, DecidableEq
+
+def levelStep (d : Descent) : LevelStep → Descent
+  | LevelStep.seed z => { level := z, zoneDepth := z }
+  | LevelStep.delegate z => { level := z, zoneDepth := z }
+  | LevelStep.cachedHit z => { level := z, zoneDepth := z }
+  | LevelStep.minimiseUp => { d with level := d.level + 1 }
+
+/-- the step `resolveWithCachedNameservers` took before /repo 97282c4 (`rs.level++`). -/
+def levelStepOld (d : Descent) : LevelStep → Descent
+  | LevelStep.cachedHit z => { level := d.level + 1, zoneDepth := z }
+  | st => levelStep d st
+
 end SdnsVerif.Model.Bailiwick
